@@ -3,6 +3,7 @@ import contextlib
 import logging
 import os
 import signal
+import threading
 import sys
 import warnings
 
@@ -69,7 +70,10 @@ def deadline(seconds):
 def outcome(fn, *args, show=None, limit=5.0):
     """'ok <shown result>' | 'err <class>' | 'hang'"""
     try:
-        with deadline(limit):
+        if threading.current_thread() is threading.main_thread():
+            with deadline(limit):
+                res = fn(*args)
+        else:
             res = fn(*args)
         return 'ok' + (' ' + show(res) if show else '')
     except Hang:
